@@ -53,6 +53,28 @@ Proof.
 Qed.
 Print Assumptions C12_history_independent_full.
 
+(* the relational theorems WITHOUT plain_carriers / no_nested (corollaries of C12_dispatch_ref): the unique class that
+   carries the tag is ENTERED - a plain class gives an instance or its own error, a class with its own class-level
+   discriminator answers through that dispatcher on the same input; nobody carries it -> SuitableVariantNotFound *)
+Theorem C12_registry_nested : forall acc sites pre i s inp t present o,
+  nth_error sites i = Some s -> s_field s = true -> site_ok s (length (defs pre)) = true ->
+  assoc (s_fid s) inp = Some (Hashable t) -> uniq_all sites (defs pre) inp ->
+  snd (step acc sites (final acc sites pre) (Decode i inp present)) = Some o ->
+  (forall c, carries (defs pre) s c t -> o = ref_enter acc sites (defs pre) (S (length (defs pre))) inp present c)
+  /\ ((forall c, ~ carries (defs pre) s c t) -> o = ONotFound).
+Proof. exact registry_nested. Qed.
+Print Assumptions C12_registry_nested.
+
+(* no-field mode with nested dispatchers of either mode among the variants: the first class in walk order (subclasses
+   before supertypes) whose entering yields an instance *)
+Theorem C12_nofield_nested : forall acc sites pre i s inp present,
+  nth_error sites i = Some s -> s_field s = false -> site_ok s (length (defs pre)) = true ->
+  uniq_all sites (defs pre) inp ->
+  snd (step acc sites (final acc sites pre) (Decode i inp present))
+  = Some (ref_loop (ref_enter acc sites (defs pre) (S (length (defs pre))) inp present) (variants (defs pre) s)).
+Proof. exact nofield_nested. Qed.
+Print Assumptions C12_nofield_nested.
+
 Theorem C12_uniq_all_decidable : forall sites ops inp, uniq_allb sites (defs ops) inp = true -> uniq_all sites (defs ops) inp.
 Proof. intros sites ops inp. apply uniq_allb_sound, wf_defs. Qed.
 Print Assumptions C12_uniq_all_decidable.
@@ -282,3 +304,16 @@ Example C12_dispatch_ref_nonvacuous :
   /\ ref_decode acc_req sites_mix (defs h_mix) 1 [(0, Hashable 2)] [9] = OInst 5
   /\ ref_decode acc_req sites_mix (defs h_mix) 0 [(0, Hashable 2)] [] = ORej 5.
 Proof. vm_compute. repeat split. Qed.
+
+(* non-vacuity of C12_registry_nested: in h_mix the class carrying tag 1 at the root (class 1) is a NO-FIELD dispatcher;
+   the theorem pins the answer to that dispatcher's answer (class 3 for fields {8}) *)
+Example C12_registry_nested_nonvacuous :
+  carries (defs h_mix) (Site [0] true false true false true false 0 0 false) 1 1
+  /\ ref_enter acc_req sites_mix (defs h_mix) (S (length (defs h_mix))) [(0, Hashable 1)] [8] 1 = OInst 3
+  /\ snd (step acc_req sites_mix (final acc_req sites_mix h_mix) (Decode 0 [(0, Hashable 1)] [8])) = Some (OInst 3).
+Proof.
+  split; [|vm_compute; split; reflexivity].
+  split; [|exists (Cls [0] [(0, 1)] [] [] false); split; [reflexivity | left; reflexivity]].
+  left. split; [reflexivity|]. exists 0. split; [left; reflexivity|].
+  apply desc_child. exists (Cls [0] [(0, 1)] [] [] false). split; [reflexivity | left; reflexivity].
+Qed.
